@@ -71,16 +71,17 @@ type Lay struct {
 	Skew    int    `json:"skew"`  // commit regime: Timestamp = Committed - skew seconds (skew <= base)
 	VStep   int    `json:"vstep"` // version number of version index v = voff + vstep*v
 	VOff    int    `json:"voff"`
-	IDBase  int64  `json:"idbase,string"` // element id of child k = idbase + k (same number for every type)
-	CsBase  int64  `json:"csbase,string"` // changeset id = csbase + abstract cs
-	Shuffle int64  `json:"shuffle"`       // seed for the order of versions inside the datasource lists
-	Runs    int    `json:"runs"`          // R
-	OptAll  bool   `json:"optall"`        // pass every option explicitly (else only the non-default ones)
-	SameID  bool   `json:"sameid"`        // all children share one id number (only when their types differ)
-	NoThr   bool   `json:"nothr"`         // commit regime only: leave the Threshold option out (thresholds do not apply there)
-	Zones   int64  `json:"zones"`         // != 0: the time.Time values are held in varying locations (same instants), chosen from this seed
-	ReAnn   int    `json:"reann"`         // != 0: annotate the same (now annotated, Updates set) parents a second time: -2 without ChildFilter, -1 filter rejects all, k filter accepts only child k
-	Late    bool   `json:"late"`          // timestamp regime: no commit info although every timestamp is after CommitInfoStart
+	IDBase  int64  `json:"idbase,string"`  // element id of child k = idbase + k (same number for every type)
+	CsBase  int64  `json:"csbase,string"`  // changeset id = csbase + abstract cs
+	Shuffle int64  `json:"shuffle"`        // seed for the order of versions inside the datasource lists
+	Runs    int    `json:"runs"`           // R
+	OptAll  bool   `json:"optall"`         // pass every option explicitly (else only the non-default ones)
+	SameID  bool   `json:"sameid"`         // all children share one id number (only when their types differ)
+	NoThr   bool   `json:"nothr"`          // commit regime only: leave the Threshold option out (thresholds do not apply there)
+	Zones   int64  `json:"zones"`          // != 0: the time.Time values are held in varying locations (same instants), chosen from this seed
+	ReAnn   int    `json:"reann"`          // != 0: annotate the same (now annotated, Updates set) parents a second time: -2 without ChildFilter, -1 filter rejects all, k filter accepts only child k
+	Huge    *Huge  `json:"huge,omitempty"` // the parent is expanded to N references before the call (see Huge)
+	Late    bool   `json:"late"`           // timestamp regime: no commit info although every timestamp is after CommitInfoStart
 }
 
 type Case struct {
@@ -120,6 +121,93 @@ type Run struct {
 type Got struct {
 	Runs []Run     `json:"runs"`
 	App  [][][]Ann `json:"app"` // parent -> t -> position
+}
+
+// Huge: the case's (small) child lists are the references at the real positions Pos of a parent with N
+// references; every other position references child Fill.  After the call the parent is projected back onto
+// Pos (update indexes are mapped back; an index outside Pos is reported as N, which is no position).
+type Huge struct {
+	N    int   `json:"n"`
+	Pos  []int `json:"pos"`
+	Fill int   `json:"fill"`
+}
+
+func (s *sym) expandWay(w *osm.Way) {
+	hg := s.c.Lay.Huge
+	small := w.Nodes
+	w.Nodes = make(osm.WayNodes, hg.N)
+	for j := range w.Nodes {
+		w.Nodes[j] = osm.WayNode{ID: osm.NodeID(s.id(hg.Fill))}
+	}
+	for j, p := range hg.Pos {
+		if j < len(small) {
+			w.Nodes[p] = small[j]
+		}
+	}
+}
+
+func (s *sym) expandRelation(r *osm.Relation) {
+	hg := s.c.Lay.Huge
+	small := r.Members
+	r.Members = make(osm.Members, hg.N)
+	for j := range r.Members {
+		r.Members[j] = osm.Member{Type: osmType(s.c.Kt[hg.Fill-1]), Ref: s.id(hg.Fill), Role: "fill"}
+	}
+	for j, p := range hg.Pos {
+		if j < len(small) {
+			r.Members[p] = small[j]
+		}
+	}
+}
+
+func (s *sym) projectUpdates(us osm.Updates) osm.Updates {
+	hg := s.c.Lay.Huge
+	back := map[int]int{}
+	for j, p := range hg.Pos {
+		back[p] = j
+	}
+	fill := map[int]bool{}
+	out := make(osm.Updates, 0, len(us))
+	for _, u := range us {
+		if j, ok := back[u.Index]; ok {
+			u.Index = j
+		} else if !fill[u.Index] && len(out) < 64 {
+			// updates of filler positions are legitimate but not looked at; anything else stays visible
+			if u.Index >= 0 && u.Index < hg.N && u.Version != 0 && s.absVersion(hg.Fill, u.Version) > 0 {
+				fill[u.Index] = true
+				continue
+			}
+			u.Index = hg.N
+		} else {
+			continue
+		}
+		out = append(out, u)
+	}
+	return out
+}
+
+func (s *sym) projectWay(w *osm.Way) {
+	hg := s.c.Lay.Huge
+	small := make(osm.WayNodes, 0, len(hg.Pos))
+	for _, p := range hg.Pos {
+		if p < len(w.Nodes) {
+			small = append(small, w.Nodes[p])
+		}
+	}
+	w.Nodes = small
+	w.Updates = s.projectUpdates(w.Updates)
+}
+
+func (s *sym) projectRelation(r *osm.Relation) {
+	hg := s.c.Lay.Huge
+	small := make(osm.Members, 0, len(hg.Pos))
+	for _, p := range hg.Pos {
+		if p < len(r.Members) {
+			small = append(small, r.Members[p])
+		}
+	}
+	r.Members = small
+	r.Updates = s.projectUpdates(r.Updates)
 }
 
 // Seq is a call history: the cases are annotated one after the other in one process.
@@ -551,12 +639,22 @@ func runCase(c *Case) Got {
 		var run Run
 		if c.Lay.Kind == "way" {
 			ws := s.ways()
+			if c.Lay.Huge != nil {
+				for _, w := range ws {
+					s.expandWay(w)
+				}
+			}
 			err := annotate.Ways(ctx, ws, ds, s.options()...)
 			if err == nil && c.Lay.ReAnn != 0 {
 				// incremental re-annotation: the parents enter annotated and carrying Updates
 				err = annotate.Ways(ctx, ws, ds, s.optionsFilt(reFilt(c.Lay.ReAnn))...)
 			}
 			run.Err = errName(err)
+			if err == nil && c.Lay.Huge != nil {
+				for _, w := range ws {
+					s.projectWay(w)
+				}
+			}
 			if err == nil {
 				for i, w := range ws {
 					run.Par = append(run.Par, ParOut{Refs: s.wayRefs(i, w), Upd: s.updates(i, w.Updates)})
@@ -578,11 +676,21 @@ func runCase(c *Case) Got {
 			}
 		} else {
 			rs := s.relations()
+			if c.Lay.Huge != nil {
+				for _, r := range rs {
+					s.expandRelation(r)
+				}
+			}
 			err := annotate.Relations(ctx, rs, ds, s.options()...)
 			if err == nil && c.Lay.ReAnn != 0 {
 				err = annotate.Relations(ctx, rs, ds, s.optionsFilt(reFilt(c.Lay.ReAnn))...)
 			}
 			run.Err = errName(err)
+			if err == nil && c.Lay.Huge != nil {
+				for _, r := range rs {
+					s.projectRelation(r)
+				}
+			}
 			if err == nil {
 				for i, rel := range rs {
 					run.Par = append(run.Par, ParOut{Refs: s.relRefs(i, rel), Upd: s.updates(i, rel.Updates)})
